@@ -89,7 +89,10 @@ def match_known(known, pid, harness, failure):
 def _sig(f):
     """signature used to de-duplicate failures: label + harness-supplied detail keys"""
     det = f.get("detail", {})
-    keys = {k: det[k] for k in sorted(det) if k in ("sig", "op", "ops", "exc", "where", "what")}
+    keys = {k: det[k] for k in sorted(det) if k in ("sig", "op", "exc", "where", "what")}
+    if "problems" in det and det["problems"]:
+        import re as _re
+        keys["problem"] = _re.sub(r"[A-Za-z]*[0-9_][A-Za-z0-9_]*", "#", str(det["problems"][0]))[:60]
     return f["label"].split(":")[0] + "|" + json.dumps(keys, sort_keys=True, default=str)
 
 
